@@ -83,7 +83,8 @@ class Sched(object):
                 res = ('exc', repr(e))
             with self.cv:
                 self.finished[pid] = res
-                self.turn = None
+                if self.turn == pid:
+                    self.turn = None
                 self.cv.notify_all()
         t = threading.Thread(target=body, daemon=True)
         t.start()
@@ -235,8 +236,11 @@ def run_impl(events):
                 os.utime(w.source, (w.clock, w.clock))
             elif e[0] == 'Kill':
                 with w.sched.cv:
-                    w.sched.killed.add(e[1])
-                    w.sched.cv.notify_all()
+                    if e[1] < next_pid and e[1] not in w.sched.finished:
+                        w.sched.killed.add(e[1])
+                        w.sched.cv.notify_all()
+                        while e[1] not in w.sched.finished:      # the kill is complete before the next event
+                            w.sched.cv.wait(timeout=0.05)
             elif e[0] == 'Unlink':
                 try:
                     os.unlink(store_file)
